@@ -1,5 +1,1058 @@
-(* Mini/ScopeProofs.v — proofs about Mini/Scope.v, Mini/Overload.v, Mini/ScopeImpl.v *)
-From Coq Require Import List NArith Bool Lia.
+(* Mini/ScopeProofs.v — proofs about Mini/Scope.v, Mini/Overload.v, Mini/ScopeImpl.v
+   Part 1: the lookup cache is coherent along every trace that follows the analysis discipline.
+   Part 2: lookup_uncached on the scope chain of a program point refines Scope.denotes.
+   Part 3: the staged disambiguation refines "the unique candidate whose types fit". *)
+From Coq Require Import List NArith Bool Lia Permutation.
 Import ListNotations.
 From RH Require Import Mini.Scope Mini.Overload Mini.ScopeImpl.
 Open Scope N_scope.
+
+#[local] Arguments N.eqb : simpl never.
+
+(* ------------------------------------------------------------------------------------------ *)
+(* Part 1: cache coherence                                                                    *)
+(* ------------------------------------------------------------------------------------------ *)
+
+(* two scope chains that agree, frame by frame, on the immediate declarations of d and on the
+   visibility give the same uncached lookup of d (in particular: caches are irrelevant) *)
+Definition same_for (d : des) (f f' : frame) : Prop :=
+  lookup_immediate f d = lookup_immediate f' d /\ r_vis (f_region f) = r_vis (f_region f').
+
+Lemma lookup_enclosing_same : forall d s s',
+  Forall2 (same_for d) s s' -> lookup_enclosing s d = lookup_enclosing s' d.
+Proof.
+  intros d s s' H. induction H as [|f f' s s' [Hi Hv] HF IH]; [reflexivity|].
+  cbn [lookup_enclosing]. rewrite Hi, IH. reflexivity.
+Qed.
+
+Lemma lookup_visibility_same : forall d s s',
+  Forall2 (same_for d) s s' -> forall acc, lookup_visibility_into s d acc = lookup_visibility_into s' d acc.
+Proof.
+  intros d s s' H. induction H as [|f f' s s' [Hi Hv] HF IH]; intros acc; [reflexivity|].
+  cbn [lookup_visibility_into]. rewrite Hv. apply IH.
+Qed.
+
+Lemma lookup_uncached_same : forall d s s',
+  Forall2 (same_for d) s s' -> lookup_uncached s d = lookup_uncached s' d.
+Proof.
+  intros d s s' H. unfold lookup_uncached, lookup_visible.
+  rewrite (lookup_enclosing_same d s s' H), (lookup_visibility_same d s s' H). reflexivity.
+Qed.
+
+Lemma same_for_refl : forall d f, same_for d f f.
+Proof. intros; split; reflexivity. Qed.
+Lemma Forall2_same_refl : forall d s, Forall2 (same_for d) s s.
+Proof. intros d s; induction s; constructor; auto using same_for_refl. Qed.
+
+(* a nested scope starts transparent *)
+Lemma ents_get_nil : forall d, ents_get [] d = None.
+Proof. reflexivity. Qed.
+
+Lemma lookup_uncached_nested : forall c s d,
+  lookup_uncached (mkFrame region_empty c :: s) d = lookup_uncached s d.
+Proof.
+  intros c s d. unfold lookup_uncached, lookup_visible.
+  cbn [lookup_enclosing lookup_visibility_into lookup_immediate f_region region_empty r_ents r_vis
+       vis_lookup_into vis_empty v_all v_named fold_left ents_get vmap_get].
+  reflexivity.
+Qed.
+
+(* Region::add only changes what its own designator denotes *)
+Lemma ents_get_add_other : forall m e d, d <> edes e -> ents_get (ents_add m e) d = ents_get m d.
+Proof.
+  intros m e d Hd. induction m as [|[k n] r IH]; cbn [ents_add ents_get].
+  - destruct (N.eqb_spec (edes e) d); [congruence|reflexivity].
+  - destruct (N.eqb_spec k (edes e)) as [->|Hk]; cbn [ents_get].
+    + destruct (N.eqb_spec (edes e) d); [congruence|reflexivity].
+    + destruct (N.eqb_spec k d); [reflexivity|apply IH].
+Qed.
+
+Lemma same_for_add : forall c f e d, d <> edes e -> same_for d (frame_add c f e) f.
+Proof.
+  intros c f e d Hd. split; cbn [frame_add lookup_immediate f_region r_ents r_vis].
+  - apply ents_get_add_other; exact Hd.
+  - reflexivity.
+Qed.
+
+Lemma update_nth_same : forall c e d k s s',
+  d <> edes e -> update_nth k (fun f => frame_add c f e) s = Some s' -> Forall2 (same_for d) s' s.
+Proof.
+  intros c e d k. induction k as [|k IH]; intros s s' Hd H; destruct s as [|f r]; cbn [update_nth] in H; try discriminate.
+  - inversion H; subst. constructor; [apply same_for_add; exact Hd|apply Forall2_same_refl].
+  - destruct (update_nth k _ r) as [r'|] eqn:E; [|discriminate]. inversion H; subst.
+    constructor; [apply same_for_refl|]. eapply IH; eauto.
+Qed.
+
+(* --- the invariant ------------------------------------------------------------------------ *)
+Definition keys_ok (cached : list des) (c : cache) : Prop :=
+  forall d n, cache_get c d = Some n -> mem d cached = true.
+Definition cache_ok (stale : list des) (c : cache) (s : scope) : Prop :=
+  forall d n, cache_get c d = Some n -> mem d stale = false -> lookup_uncached s d = LOk n.
+
+Fixpoint coherent (st : list dframe) (s : scope) : Prop :=
+  match st, s with
+  | [], [] => True
+  | df :: st', f :: s' =>
+      keys_ok (d_cached df) (f_cache f) /\ cache_ok (d_stale df) (f_cache f) (f :: s') /\ coherent st' s'
+  | _, _ => False
+  end.
+
+Lemma mem_true_iff : forall d l, mem d l = true <-> In d l.
+Proof.
+  intros d l. unfold mem. rewrite existsb_exists. split.
+  - intros [x [Hx He]]. apply N.eqb_eq in He. subst. exact Hx.
+  - intros H. exists d. split; [exact H|apply N.eqb_refl].
+Qed.
+Lemma mem_cons : forall d x l, mem d (x :: l) = (d =? x) || mem d l.
+Proof. reflexivity. Qed.
+Lemma mem_del : forall d x l, mem d (del x l) = negb (d =? x) && mem d l.
+Proof.
+  intros d x l. unfold mem, del. induction l as [|y r IH]; cbn [filter existsb].
+  - rewrite andb_false_r. reflexivity.
+  - destruct (N.eqb_spec y x) as [->|Hy]; cbn [negb].
+    + rewrite IH. destruct (N.eqb_spec d x) as [->|Hd]; cbn [negb andb orb]; reflexivity.
+    + cbn [existsb]. rewrite IH.
+      destruct (N.eqb_spec d y) as [->|Hd]; cbn [orb].
+      * destruct (N.eqb_spec y x); [congruence|reflexivity].
+      * reflexivity.
+Qed.
+
+Lemma cache_get_remove : forall c x d,
+  cache_get (cache_remove c x) d = if d =? x then None else cache_get c d.
+Proof.
+  intros c x d. unfold cache_get, cache_remove. induction c as [|[k n] r IH]; cbn [filter ents_get fst].
+  - destruct (d =? x); reflexivity.
+  - destruct (N.eqb_spec k x) as [Hk|Hk]; cbn [negb].
+    + rewrite IH. subst k. destruct (N.eqb_spec d x) as [Hd|Hd]; [reflexivity|].
+      destruct (N.eqb_spec x d); [congruence|reflexivity].
+    + cbn [ents_get]. rewrite IH. destruct (N.eqb_spec k d) as [Hkd|Hkd]; [|reflexivity].
+      subst k. destruct (N.eqb_spec d x); [congruence|reflexivity].
+Qed.
+
+Lemma keys_ok_forget : forall cached c x, keys_ok cached c -> keys_ok (del x cached) (cache_remove c x).
+Proof.
+  intros cached c x H d n Hg. rewrite cache_get_remove in Hg.
+  destruct (N.eqb_spec d x) as [->|Hd]; [discriminate|].
+  rewrite mem_del. apply H in Hg. rewrite Hg.
+  destruct (N.eqb_spec d x); [congruence|reflexivity].
+Qed.
+
+(* frames whose region is not touched keep their coherence when only caches of inner frames change *)
+Lemma cache_ok_same : forall stale c s s',
+  (forall d, Forall2 (same_for d) s' s) -> cache_ok stale c s -> cache_ok stale c s'.
+Proof.
+  intros stale c s s' HS H d n Hg Hm. rewrite (lookup_uncached_same d s' s (HS d)). apply H; assumption.
+Qed.
+
+Lemma coherent_length : forall st s, coherent st s -> length st = length s.
+Proof.
+  induction st as [|df st IH]; destruct s as [|f s]; cbn [coherent]; intros H; try contradiction; [reflexivity|].
+  destruct H as [_ [_ H]]. cbn [length]. f_equal. apply IH; exact H.
+Qed.
+
+(* add k levels up *)
+Lemma coherent_add : forall c e, add_invalidates c = true -> forall k st s st' s',
+  coherent st s -> d_add k (edes e) st = Some st' ->
+  update_nth k (fun f => frame_add c f e) s = Some s' -> coherent st' s'.
+Proof.
+  intros c e Hc k. induction k as [|k IH]; intros st s st' s' Hco Hd Hu;
+    destruct st as [|df st0]; destruct s as [|f s0]; cbn [coherent] in Hco; try contradiction;
+    cbn [d_add] in Hd; cbn [update_nth] in Hu; try discriminate.
+  - inversion Hd; subst; clear Hd. inversion Hu; subst; clear Hu.
+    destruct Hco as [Hk [Hok Hrest]]. cbn [coherent]. split; [|split; [|exact Hrest]].
+    + cbn [frame_add f_cache d_forget d_cached]. rewrite Hc. apply keys_ok_forget; exact Hk.
+    + intros d n Hg Hm. cbn [frame_add f_cache] in Hg. rewrite Hc in Hg.
+      rewrite cache_get_remove in Hg. destruct (N.eqb_spec d (edes e)) as [->|Hde]; [discriminate|].
+      cbn [d_forget d_stale] in Hm. rewrite mem_del in Hm.
+      destruct (N.eqb_spec d (edes e)); [congruence|]. cbn [negb andb] in Hm.
+      rewrite (lookup_uncached_same d (frame_add c f e :: s0) (f :: s0)).
+      * apply Hok; assumption.
+      * constructor; [apply same_for_add; exact Hde|apply Forall2_same_refl].
+  - destruct (d_add k (edes e) st0) as [st0'|] eqn:Ed; [|discriminate]. inversion Hd; subst; clear Hd.
+    destruct (update_nth k _ s0) as [s0'|] eqn:Eu; [|discriminate]. inversion Hu; subst; clear Hu.
+    destruct Hco as [Hk [Hok Hrest]]. cbn [coherent]. split; [|split; [|eapply IH; eauto]].
+    + unfold d_taint. destruct (mem (edes e) (d_cached df)); cbn [d_cached]; exact Hk.
+    + intros d n Hg Hm.
+      assert (Hde : d <> edes e).
+      { intros ->. pose proof (Hk _ _ Hg) as Hin. unfold d_taint in Hm. rewrite Hin in Hm.
+        cbn [d_stale] in Hm. rewrite mem_cons, N.eqb_refl in Hm. discriminate. }
+      assert (Hm' : mem d (d_stale df) = false).
+      { unfold d_taint in Hm. destruct (mem (edes e) (d_cached df)); cbn [d_stale] in Hm; [|exact Hm].
+        rewrite mem_cons in Hm. apply orb_false_iff in Hm. tauto. }
+      rewrite (lookup_uncached_same d (f :: s0') (f :: s0)).
+      * apply Hok; assumption.
+      * constructor; [apply same_for_refl|]. eapply update_nth_same; eauto.
+Qed.
+
+(* the whole-step lemma *)
+Definition cfg_sound (c : cfg) : Prop := add_invalidates c = true /\ mpv_clears c = true.
+
+Lemma keys_ok_nil : forall l, keys_ok l [].
+Proof. intros l d n H. discriminate. Qed.
+Lemma cache_ok_nil : forall l s, cache_ok l [] s.
+Proof. intros l s d n H. discriminate. Qed.
+
+Lemma lookup_uncached_cache_irrelevant : forall r c c' s d,
+  lookup_uncached (mkFrame r c :: s) d = lookup_uncached (mkFrame r c' :: s) d.
+Proof.
+  intros. apply lookup_uncached_same. constructor; [split; reflexivity|apply Forall2_same_refl].
+Qed.
+
+Lemma coherent_step : forall c st s o st' s' res,
+  cfg_sound c -> coherent st s -> dstep st o = Some st' -> exec c s o = Some (s', res) ->
+  coherent st' s' /\ (forall d, o = OLookup d -> res = Some (lookup_uncached s d)).
+Proof.
+  intros c st s o st' s' res [Hca Hcm] Hco Hd He. destruct o; cbn [dstep exec] in Hd, He.
+  - (* ORoot *) inversion Hd; inversion He; subst. split; [|intros; discriminate].
+    cbn [coherent f_cache d_cached d_stale]. split; [apply keys_ok_nil|split; [apply cache_ok_nil|exact I]].
+  - (* OExtend *)
+    destruct st as [|df st0]; [discriminate|]. destruct s as [|f s0]; [discriminate|].
+    inversion Hd; inversion He; subst. split; [|intros; discriminate].
+    cbn [coherent f_cache d_cached d_stale]. split; [apply keys_ok_nil|split; [apply cache_ok_nil|exact Hco]].
+  - (* ONested *)
+    destruct st as [|df st0]; [discriminate|]. destruct s as [|f s0]; [discriminate|].
+    inversion Hd; inversion He; subst. split; [|intros; discriminate].
+    pose proof Hco as Hco'. cbn [coherent] in Hco'. destruct Hco' as [Hk [Hok _]].
+    cbn [coherent f_cache]. split; [exact Hk|split; [|exact Hco]].
+    intros d n Hg Hm. rewrite lookup_uncached_nested. apply Hok; assumption.
+  - (* ODrop *)
+    destruct st as [|df [|df1 st0]]; try discriminate.
+    destruct s as [|f [|f1 s0]]; try discriminate; cbn [coherent] in Hco; try tauto.
+    inversion Hd; inversion He; subst. split; [|intros; discriminate]. cbn [coherent]. tauto.
+  - (* OAdd *)
+    destruct (update_nth k _ s) as [s1|] eqn:Eu; [|discriminate]. inversion He; subst.
+    split; [|intros; discriminate]. eapply coherent_add; eauto.
+  - (* OMpv *)
+    destruct st as [|df st0]; [discriminate|]. destruct s as [|f s0]; [discriminate|].
+    inversion Hd; inversion He; subst. split; [|intros; discriminate].
+    cbn [coherent] in Hco. destruct Hco as [_ [_ Hrest]].
+    cbn [coherent frame_mpv f_cache d_cached d_stale]. rewrite Hcm.
+    split; [apply keys_ok_nil|split; [apply cache_ok_nil|exact Hrest]].
+  - (* OMapv *)
+    destruct st as [|df st0]; [discriminate|]. destruct s as [|f s0]; [discriminate|].
+    inversion Hd; inversion He; subst. split; [|intros; discriminate].
+    cbn [coherent] in Hco. destruct Hco as [_ [_ Hrest]].
+    cbn [coherent frame_mapv f_cache d_cached d_stale].
+    split; [apply keys_ok_nil|split; [apply cache_ok_nil|exact Hrest]].
+  - (* OUncache *)
+    destruct st as [|df st0]; [discriminate|]. destruct s as [|f s0]; [discriminate|].
+    inversion Hd; inversion He; subst. split; [|intros; discriminate].
+    cbn [coherent] in Hco. destruct Hco as [Hk [Hok Hrest]].
+    cbn [coherent frame_uncache f_cache d_forget d_cached d_stale].
+    split; [apply keys_ok_forget; exact Hk|split; [|exact Hrest]].
+    intros x n Hg Hm. rewrite cache_get_remove in Hg.
+    destruct (N.eqb_spec x d) as [->|Hx]; [discriminate|].
+    rewrite mem_del in Hm. destruct (N.eqb_spec x d); [congruence|]. cbn [negb andb] in Hm.
+    destruct f as [r cch]. unfold frame_uncache. cbn [f_region f_cache] in *.
+    rewrite (lookup_uncached_cache_irrelevant r _ cch). apply Hok; assumption.
+  - (* OLookup *)
+    destruct st as [|df st0]; [discriminate|]. destruct s as [|f s0]; [discriminate|].
+    destruct (mem d (d_stale df)) eqn:Hst; [discriminate|]. inversion Hd; subst; clear Hd.
+    cbn [coherent] in Hco. destruct Hco as [Hk [Hok Hrest]].
+    unfold lookup in He. destruct (cache_get (f_cache f) d) as [n|] eqn:Hg.
+    + inversion He; subst; clear He. split.
+      * cbn [coherent d_cached d_stale]. split; [|split; [exact Hok|exact Hrest]].
+        intros x m Hx. rewrite mem_cons. apply Hk in Hx. rewrite Hx. apply orb_true_r.
+      * intros d' Hd'. inversion Hd'; subst. f_equal. symmetry. apply Hok; assumption.
+    + destruct (lookup_uncached (f :: s0) d) as [n|er] eqn:Hl; inversion He; subst; clear He.
+      * split; [|intros d' Hd'; inversion Hd'; subst; rewrite Hl; reflexivity].
+        cbn [coherent d_cached d_stale f_cache]. split; [|split; [|exact Hrest]].
+        -- intros x m Hx. rewrite mem_cons. unfold cache_get in Hx. cbn [ents_get] in Hx.
+           destruct (N.eqb_spec d x) as [->|Hdx].
+           ++ rewrite N.eqb_refl. reflexivity.
+           ++ apply Hk in Hx. rewrite Hx. apply orb_true_r.
+        -- intros x m Hx Hm. destruct f as [r cch]. cbn [f_region f_cache] in *.
+           rewrite (lookup_uncached_cache_irrelevant r _ cch).
+           unfold cache_get in Hx. cbn [ents_get] in Hx. destruct (N.eqb_spec d x) as [->|Hdx].
+           ++ inversion Hx; subst. exact Hl.
+           ++ apply Hok; assumption.
+      * split; [|intros d' Hd'; inversion Hd'; subst; rewrite Hl; reflexivity].
+        cbn [coherent d_cached d_stale]. split; [|split; [exact Hok|exact Hrest]].
+        intros x m Hx. rewrite mem_cons. apply Hk in Hx. rewrite Hx. apply orb_true_r.
+Qed.
+
+(* the reference semantics: no cache at all *)
+Definition exec_ref (c : cfg) (s : scope) (o : op) : option (scope * option lres) :=
+  match o with
+  | OLookup d => match s with [] => None | _ :: _ => Some (s, Some (lookup_uncached s d)) end
+  | _ => exec c s o
+  end.
+Fixpoint run_ref (c : cfg) (s : scope) (t : list op) : option (scope * list lres) :=
+  match t with
+  | [] => Some (s, [])
+  | o :: r =>
+      match exec_ref c s o with
+      | None => None
+      | Some (s1, res) =>
+          match run_ref c s1 r with
+          | None => None
+          | Some (s2, out) => Some (s2, match res with Some x => x :: out | None => out end)
+          end
+      end
+  end.
+
+Lemma run_coherent : forall c t st s s' rs,
+  cfg_sound c -> coherent st s -> disciplined st t -> run c s t = Some (s', rs) ->
+  exists st', coherent st' s' /\ forall d, disciplined st (t ++ [OLookup d]) -> disciplined st' [OLookup d].
+Proof.
+  intros c t. induction t as [|o t IH]; intros st s s' rs Hc Hco Hd Hr.
+  - cbn [run] in Hr. inversion Hr; subst. exists st. split; [exact Hco|]. intros d H. exact H.
+  - cbn [run] in Hr. destruct (exec c s o) as [[s1 res]|] eqn:He; [|discriminate].
+    destruct (run c s1 t) as [[s2 out]|] eqn:Hr2; [|discriminate]. inversion Hr; subst; clear Hr.
+    inversion Hd as [|? ? st1 ? Hs Hd1]; subst.
+    destruct (coherent_step c st s o st1 s1 res Hc Hco Hs He) as [Hco1 _].
+    destruct (IH st1 s1 s' out Hc Hco1 Hd1 Hr2) as [st' [Hco' Hn]].
+    exists st'. split; [exact Hco'|]. intros d H. apply Hn.
+    cbn [app] in H. inversion H as [|? ? st1' ? Hs' Hd']; subst. rewrite Hs in Hs'. inversion Hs'; subst. exact Hd'.
+Qed.
+
+Theorem cache_coherent : forall t d s rs,
+  disciplined [] (t ++ [OLookup d]) -> run cfg_now [] t = Some (s, rs) ->
+  exists s', lookup s d = Some (lookup_uncached s d, s').
+Proof.
+  intros t d s rs Hd Hr.
+  assert (Hd1 : disciplined [] t).
+  { clear Hr. revert Hd. generalize (@nil dframe). induction t as [|o t IH]; intros st H; [constructor|].
+    cbn [app] in H. inversion H; subst. econstructor; eauto. }
+  destruct (run_coherent cfg_now t [] [] s rs) as [st' [Hco Hn]]; try assumption.
+  - split; reflexivity.
+  - exact I.
+  - specialize (Hn d Hd). inversion Hn as [|? ? st2 ? Hs _]; subst.
+    destruct (exec cfg_now s (OLookup d)) as [[s2 res]|] eqn:He.
+    + destruct (coherent_step cfg_now st' s (OLookup d) st2 s2 res) as [_ Hres]; try assumption; [split; reflexivity|].
+      specialize (Hres d eq_refl). subst res. cbn [exec] in He.
+      destruct (lookup s d) as [[r s3]|]; [|discriminate]. inversion He; subst. exists s2. reflexivity.
+    + exfalso. cbn [exec dstep] in He, Hs. destruct st' as [|df st0]; [discriminate|].
+      destruct s as [|f s0]; [cbn [coherent] in Hco; contradiction|].
+      unfold lookup in He. destruct (cache_get (f_cache f) d); [discriminate|].
+      destruct (lookup_uncached (f :: s0) d); discriminate.
+Qed.
+
+
+(* the boolean checker used by the runner decides the inductive predicate *)
+Lemma disciplined_b_sound : forall t st, disciplined_b st t = true <-> disciplined st t.
+Proof.
+  induction t as [|o t IH]; intros st; cbn [disciplined_b].
+  - split; [constructor|reflexivity].
+  - destruct (dstep st o) as [st'|] eqn:E.
+    + rewrite IH. split; intros H.
+      * econstructor; eauto.
+      * inversion H as [|? ? st1 ? Hs Hd]; subst. rewrite E in Hs. inversion Hs; subst. assumption.
+    + split; [discriminate|]. intros H. inversion H as [|? ? st1 ? Hs Hd]; subst. rewrite E in Hs. discriminate.
+Qed.
+
+(* ------------------------------------------------------------------------------------------ *)
+(* Part 3: overload resolution                                                                *)
+(* ------------------------------------------------------------------------------------------ *)
+Lemma ty_eqb_eq : forall a b, ty_eqb a b = true <-> a = b.
+Proof.
+  intros [x|x] [y|y]; cbn [ty_eqb]; try (split; [discriminate|intros H; inversion H]);
+    rewrite N.eqb_eq; split; intros H; [subst|inversion H| subst |inversion H]; reflexivity.
+Qed.
+Lemma ty_eqb_refl : forall a, ty_eqb a a = true.
+Proof. intros a. apply ty_eqb_eq. reflexivity. Qed.
+Lemma oty_eqb_eq : forall a b, oty_eqb a b = true <-> a = b.
+Proof.
+  intros [x|] [y|]; cbn [oty_eqb]; try (split; [discriminate|intros H; inversion H]); try tauto.
+  rewrite ty_eqb_eq. split; intros H; [subst|inversion H]; reflexivity.
+Qed.
+Lemma same_profile_eq : forall a b, same_profile a b = true <-> profile a = profile b.
+Proof.
+  intros a b. unfold same_profile. rewrite andb_true_iff, !oty_eqb_eq.
+  destruct (profile a) as [p1 r1], (profile b) as [p2 r2]; cbn [fst snd].
+  split; [intros [-> ->]; reflexivity|intros H; inversion H; auto].
+Qed.
+
+Lemma distinct_profiles_NoDup : forall l, distinct_profiles l = true <-> NoDup (map profile l).
+Proof.
+  induction l as [|e r IH]; cbn [distinct_profiles map].
+  - split; [constructor|reflexivity].
+  - rewrite andb_true_iff, IH, negb_true_iff. split.
+    + intros [Hn Hd]. constructor; [|exact Hd]. intros Hin. apply in_map_iff in Hin.
+      destruct Hin as [x [Hx Hin]]. assert (existsb (same_profile e) r = true); [|congruence].
+      apply existsb_exists. exists x. split; [exact Hin|]. apply same_profile_eq. symmetry. exact Hx.
+    + intros H. inversion H as [|? ? Hn Hd]; subst. split; [|exact Hd].
+      destruct (existsb (same_profile e) r) eqn:E; [|reflexivity]. exfalso. apply Hn.
+      apply existsb_exists in E. destruct E as [x [Hin Hx]]. apply in_map_iff. exists x.
+      split; [|exact Hin]. symmetry. apply same_profile_eq. exact Hx.
+Qed.
+
+(* for overloadable declarations, fitting a call = surviving every stage's predicate *)
+Lemma fits_call_stages : forall a t e, overloadable e = true ->
+  cand_fits (UCall a t) e =
+  is_function e && accepts_one_actual e && actual_ok implicit_possible a e && return_ok (Some t) e.
+Proof.
+  intros a t [i d k b] Ho. unfold overloadable in Ho. cbn [ekind] in Ho.
+  destruct k as [ty0|p r|ty0|ty0 lits]; try discriminate;
+    unfold cand_fits, is_function, accepts_one_actual, actual_ok, return_ok, return_type, formal; cbn [ekind].
+  - unfold arg_fits, implicit_possible. destruct a; cbn [andb]; reflexivity.
+  - reflexivity.
+Qed.
+
+Lemma filter_filter : forall {A} (f g : A -> bool) l, filter f (filter g l) = filter (fun x => g x && f x) l.
+Proof.
+  intros A f g l. induction l as [|x r IH]; [reflexivity|]. cbn [filter].
+  destruct (g x); cbn [filter andb]; [destruct (f x); rewrite IH; reflexivity|exact IH].
+Qed.
+Lemma filter_ext_in' : forall {A} (f g : A -> bool) l, (forall x, In x l -> f x = g x) -> filter f l = filter g l.
+Proof.
+  intros A f g l H. induction l as [|x r IH]; [reflexivity|]. cbn [filter].
+  rewrite (H x (or_introl eq_refl)). rewrite IH; [reflexivity|]. intros y Hy. apply H. right. exact Hy.
+Qed.
+
+Lemma forallb_In : forall {A} (f : A -> bool) l x, forallb f l = true -> In x l -> f x = true.
+Proof. intros A f l x H Hin. rewrite forallb_forall in H. auto. Qed.
+
+Definition stage1 (es : list ent) := filter is_function es.
+Definition stage2 (es : list ent) := filter accepts_one_actual (stage1 es).
+Definition stage3 a (es : list ent) := filter (actual_ok implicit_possible a) (stage2 es).
+Definition stage4 a t (es : list ent) := filter (return_ok (Some t)) (stage3 a es).
+
+Lemma stage4_fits : forall a t es, forallb overloadable es = true ->
+  stage4 a t es = filter (cand_fits (UCall a t)) es.
+Proof.
+  intros a t es Ho. unfold stage4, stage3, stage2, stage1. rewrite !filter_filter.
+  apply filter_ext_in'. intros x Hx. rewrite (fits_call_stages a t x (forallb_In _ _ _ Ho Hx)).
+  rewrite !andb_assoc. reflexivity.
+Qed.
+
+Lemma in_stage_of_fits : forall a t es e, forallb overloadable es = true ->
+  In e es -> cand_fits (UCall a t) e = true ->
+  In e (stage1 es) /\ In e (stage2 es) /\ In e (stage3 a es) /\ In e (stage4 a t es).
+Proof.
+  intros a t es e Ho Hin Hf. rewrite (fits_call_stages a t e (forallb_In _ _ _ Ho Hin)) in Hf.
+  apply andb_true_iff in Hf. destruct Hf as [Hf H4]. apply andb_true_iff in Hf. destruct Hf as [Hf H3].
+  apply andb_true_iff in Hf. destruct Hf as [H1 H2].
+  unfold stage4, stage3, stage2, stage1. repeat rewrite filter_In. tauto.
+Qed.
+
+Lemma disambiguate_stages : forall es a t,
+  disambiguate es a (Some t) =
+  match es with
+  | [e] => Unambiguous e
+  | _ =>
+    match stage1 es with
+    | [e] => Unambiguous e
+    | [] => Failed
+    | _ => match stage2 es with
+           | [e] => Unambiguous e
+           | [] => Failed
+           | _ => match stage3 a es with
+                  | [e] => Unambiguous e
+                  | [] => Failed
+                  | _ => match stage4 a t es with
+                         | [e] => Unambiguous e
+                         | [] => Failed
+                         | _ => match filter (actual_ok strict_possible a) (stage4 a t es) with
+                                | [e] => Unambiguous e
+                                | [] => Ambiguous (stage4 a t es)
+                                | _ => Ambiguous (filter (actual_ok strict_possible a) (stage4 a t es))
+                                end
+                         end
+                  end
+           end
+    end
+  end.
+Proof. reflexivity. Qed.
+
+Lemma singleton_of_in : forall (l : list ent) e x, In e l -> l = [x] -> x = e.
+Proof. intros l e x Hin ->. destruct Hin as [H|[]]. exact H. Qed.
+
+Lemma disambiguate_in : forall es a t x, disambiguate es a (Some t) = Unambiguous x -> In x es.
+Proof.
+  intros es a t x. rewrite disambiguate_stages.
+  assert (H1 : forall y, In y (stage1 es) -> In y es) by (intros y Hy; apply filter_In in Hy; tauto).
+  assert (H2 : forall y, In y (stage2 es) -> In y es) by (intros y Hy; apply filter_In in Hy; apply H1; tauto).
+  assert (H3 : forall y, In y (stage3 a es) -> In y es) by (intros y Hy; apply filter_In in Hy; apply H2; tauto).
+  assert (H4 : forall y, In y (stage4 a t es) -> In y es) by (intros y Hy; apply filter_In in Hy; apply H3; tauto).
+  assert (H5 : forall y, In y (filter (actual_ok strict_possible a) (stage4 a t es)) -> In y es)
+    by (intros y Hy; apply filter_In in Hy; apply H4; tauto).
+  destruct es as [|e0 [|e1 r]]; [| intros H; inversion H; subst; left; reflexivity |].
+  - cbn. discriminate.
+  - set (es := e0 :: e1 :: r) in *.
+    destruct (stage1 es) as [|a1 [|b1 r1]] eqn:E1; [discriminate| intros H; inversion H; subst; apply H1; left; reflexivity|].
+    destruct (stage2 es) as [|a2 [|b2 r2]] eqn:E2; [discriminate| intros H; inversion H; subst; apply H2; left; reflexivity|].
+    destruct (stage3 a es) as [|a3 [|b3 r3]] eqn:E3; [discriminate| intros H; inversion H; subst; apply H3; left; reflexivity|].
+    destruct (stage4 a t es) as [|a4 [|b4 r4]] eqn:E4; [discriminate| intros H; inversion H; subst; apply H4; left; reflexivity|].
+    destruct (filter (actual_ok strict_possible a) (a4 :: b4 :: r4)) as [|a5 [|b5 r5]] eqn:E5;
+      [discriminate| intros H; inversion H; subst; apply H5; left; reflexivity| discriminate].
+Qed.
+
+Lemma disambiguate_unique_fit : forall es a t e,
+  forallb overloadable es = true -> filter (cand_fits (UCall a t)) es = [e] ->
+  disambiguate es a (Some t) = Unambiguous e.
+Proof.
+  intros es a t e Ho HF.
+  assert (Hin : In e es /\ cand_fits (UCall a t) e = true).
+  { assert (In e (filter (cand_fits (UCall a t)) es)) by (rewrite HF; left; reflexivity).
+    apply filter_In in H. exact H. }
+  destruct Hin as [Hin Hfit].
+  destruct (in_stage_of_fits a t es e Ho Hin Hfit) as [I1 [I2 [I3 I4]]].
+  rewrite disambiguate_stages. rewrite <- (stage4_fits a t es Ho) in HF.
+  destruct es as [|e0 [|e1 r]]; [destruct Hin| destruct Hin as [->|[]]; reflexivity|].
+  set (es := e0 :: e1 :: r) in *.
+  destruct (stage1 es) as [|a1 [|b1 r1]] eqn:E1; [destruct I1| f_equal; apply (singleton_of_in [a1] e a1 I1 eq_refl) |].
+  destruct (stage2 es) as [|a2 [|b2 r2]] eqn:E2; [destruct I2| f_equal; apply (singleton_of_in [a2] e a2 I2 eq_refl) |].
+  destruct (stage3 a es) as [|a3 [|b3 r3]] eqn:E3; [destruct I3| f_equal; apply (singleton_of_in [a3] e a3 I3 eq_refl) |].
+  rewrite HF. reflexivity.
+Qed.
+
+Lemma filter_length_le' : forall {A} (f : A -> bool) l, (length (filter f l) <= length l)%nat.
+Proof. intros A f l. induction l as [|x r IH]; cbn [filter length]; [lia|]. destruct (f x); cbn [length]; lia. Qed.
+
+Lemma NoDup_map_filter : forall {A B} (f : A -> B) (g : A -> bool) l, NoDup (map f l) -> NoDup (map f (filter g l)).
+Proof.
+  intros A B f g l. induction l as [|x r IH]; cbn [map filter]; intros H; [constructor|].
+  inversion H as [|? ? Hn Hd]; subst. destruct (g x); cbn [map]; [|apply IH; exact Hd].
+  constructor; [|apply IH; exact Hd]. intros Hin. apply Hn. apply in_map_iff in Hin.
+  destruct Hin as [y [Hy Hin]]. apply filter_In in Hin. apply in_map_iff. exists y. tauto.
+Qed.
+
+(* two different fitting candidates are only possible for a universal integer actual *)
+Lemma two_fits_universal : forall es a t x y r,
+  NoDup (map profile es) -> filter (cand_fits (UCall a t)) es = x :: y :: r -> a = AUniv.
+Proof.
+  intros es a t x y r Hnd HF.
+  pose proof (NoDup_map_filter profile (cand_fits (UCall a t)) es Hnd) as H. rewrite HF in H.
+  assert (Hx : cand_fits (UCall a t) x = true /\ cand_fits (UCall a t) y = true).
+  { assert (In x (filter (cand_fits (UCall a t)) es)) by (rewrite HF; left; reflexivity).
+    assert (In y (filter (cand_fits (UCall a t)) es)) by (rewrite HF; right; left; reflexivity).
+    rewrite filter_In in *. tauto. }
+  destruct Hx as [Hx Hy]. destruct a as [|ta]; [reflexivity|exfalso].
+  cbn [map] in H. inversion H as [|? ? Hn _]; subst. apply Hn. left.
+  unfold cand_fits in Hx, Hy. unfold profile.
+  destruct (ekind x) as [?|px rx|?|? ?]; try discriminate. destruct (ekind y) as [?|py ry|?|? ?]; try discriminate.
+  cbn [arg_fits] in Hx, Hy. apply andb_true_iff in Hx, Hy. destruct Hx as [Hx1 Hx2], Hy as [Hy1 Hy2].
+  apply ty_eqb_eq in Hx1, Hx2, Hy1, Hy2. subst. reflexivity.
+Qed.
+
+Lemma strict_universal_none : forall (l : list ent) t,
+  (forall e, In e l -> cand_fits (UCall AUniv t) e = true) -> filter (actual_ok strict_possible AUniv) l = [].
+Proof.
+  intros l t H. induction l as [|e r IH]; [reflexivity|]. cbn [filter].
+  assert (He : cand_fits (UCall AUniv t) e = true) by (apply H; left; reflexivity).
+  unfold cand_fits in He. unfold actual_ok, formal. destruct (ekind e); try discriminate.
+  cbn [strict_possible]. apply IH. intros x Hx. apply H. right. exact Hx.
+Qed.
+
+Lemma disambiguate_several_fit : forall es a t x y r,
+  forallb overloadable es = true -> NoDup (map profile es) ->
+  filter (cand_fits (UCall a t)) es = x :: y :: r ->
+  disambiguate es a (Some t) = Ambiguous (x :: y :: r).
+Proof.
+  intros es a t x y r Ho Hnd HF.
+  pose proof (two_fits_universal es a t x y r Hnd HF) as Ha. subst a.
+  rewrite disambiguate_stages. pose proof (stage4_fits AUniv t es Ho) as H4. rewrite HF in H4.
+  assert (L4 : (2 <= length (stage4 AUniv t es))%nat) by (rewrite H4; cbn [length]; lia).
+  assert (L3 : (2 <= length (stage3 AUniv es))%nat).
+  { unfold stage4 in L4. pose proof (filter_length_le' (return_ok (Some t)) (stage3 AUniv es)). lia. }
+  assert (L2 : (2 <= length (stage2 es))%nat).
+  { unfold stage3 in L3. pose proof (filter_length_le' (actual_ok implicit_possible AUniv) (stage2 es)). lia. }
+  assert (L1 : (2 <= length (stage1 es))%nat).
+  { unfold stage2 in L2. pose proof (filter_length_le' accepts_one_actual (stage1 es)). lia. }
+  assert (L0 : (2 <= length es)%nat).
+  { unfold stage1 in L1. pose proof (filter_length_le' is_function es). lia. }
+  destruct es as [|e0 [|e1 r0]]; cbn [length] in L0; try lia.
+  set (es := e0 :: e1 :: r0) in *.
+  destruct (stage1 es) as [|a1 [|b1 r1]]; cbn [length] in L1; try lia.
+  destruct (stage2 es) as [|a2 [|b2 r2]]; cbn [length] in L2; try lia.
+  destruct (stage3 AUniv es) as [|a3 [|b3 r3]]; cbn [length] in L3; try lia.
+  rewrite H4. rewrite (strict_universal_none (x :: y :: r) t); [reflexivity|].
+  intros e He. rewrite <- HF in He. apply filter_In in He. tauto.
+Qed.
+
+(* ---- unary operators ---------------------------------------------------------------------- *)
+Definition op1 (a : arg) (cs : list ent) := if longer_than_one cs then filter (actual_ok implicit_possible a) cs else cs.
+Definition op2 (t : ty) (c1 : list ent) := if longer_than_one c1 then filter (return_ok (Some t)) c1 else c1.
+Definition op3 (a : arg) (c2 : list ent) :=
+  if longer_than_one c2 && all_same_return c2 then filter (actual_ok strict_possible a) c2 else c2.
+Definition op5 (a : arg) (cs c4 : list ent) :=
+  match c4 with
+  | [] => match filter (actual_ok strict_possible a) cs with [e] => [e] | _ => [] end
+  | _ => c4
+  end.
+Lemma disambiguate_op_stages : forall cs a t,
+  disambiguate_op cs a (Some t) =
+  match op5 a cs (op2 t (op3 a (op2 t (op1 a cs)))) with
+  | [] => Failed
+  | [e] => Unambiguous e
+  | _ => Ambiguous (op5 a cs (op2 t (op3 a (op2 t (op1 a cs)))))
+  end.
+Proof. reflexivity. Qed.
+
+Lemma lt1_length : forall {A} (l : list A), longer_than_one l = true <-> (2 <= length l)%nat.
+Proof. intros A [|x [|y r]]; cbn [longer_than_one length]; split; try discriminate; try lia; reflexivity. Qed.
+Lemma lt1_false : forall {A} (l : list A), longer_than_one l = false -> l = [] \/ exists x, l = [x].
+Proof. intros A [|x [|y r]]; cbn [longer_than_one]; intros H; try discriminate; [left; reflexivity|right; eauto]. Qed.
+
+(* candidates of an operator call all accept one actual and are functions *)
+Lemma opcand_fits : forall a t e, accepts_one_actual e = true -> is_function e = true ->
+  cand_fits (UCall a t) e = actual_ok implicit_possible a e && return_ok (Some t) e.
+Proof.
+  intros a t [i d k b]. unfold accepts_one_actual, is_function, formal, return_type, cand_fits, actual_ok, return_ok.
+  cbn [ekind]. destruct k; try discriminate. intros _ _. unfold arg_fits, implicit_possible. destruct a; reflexivity.
+Qed.
+
+Lemma fits_is_opcand : forall a t e, cand_fits (UCall a t) e = true -> accepts_one_actual e && is_function e = true.
+Proof.
+  intros a t e H. unfold cand_fits in H. unfold accepts_one_actual, is_function, formal, return_type.
+  destruct (ekind e); try discriminate. reflexivity.
+Qed.
+
+Lemma opcand_filter : forall a t es,
+  filter (cand_fits (UCall a t)) (operator_candidates es) = filter (cand_fits (UCall a t)) es.
+Proof.
+  intros a t es. unfold operator_candidates. rewrite filter_filter. apply filter_ext_in'.
+  intros x _. destruct (cand_fits (UCall a t) x) eqn:E; [|apply andb_false_r].
+  rewrite (fits_is_opcand a t x E). reflexivity.
+Qed.
+
+Section OpStages.
+  Variables (a : arg) (t : ty) (cs : list ent).
+  Hypothesis Hcs : forall e, In e cs -> accepts_one_actual e = true /\ is_function e = true.
+
+  Lemma op_fits_12 : forall e, In e cs ->
+    cand_fits (UCall a t) e = actual_ok implicit_possible a e && return_ok (Some t) e.
+  Proof. intros e He. destruct (Hcs e He). apply opcand_fits; assumption. Qed.
+
+  Lemma op12_filter : filter (return_ok (Some t)) (filter (actual_ok implicit_possible a) cs)
+                      = filter (cand_fits (UCall a t)) cs.
+  Proof.
+    rewrite filter_filter. apply filter_ext_in'. intros x Hx. rewrite (op_fits_12 x Hx). reflexivity.
+  Qed.
+
+  Lemma op_unique_fit : forall e, filter (cand_fits (UCall a t)) cs = [e] ->
+    disambiguate_op cs a (Some t) = Unambiguous e.
+  Proof.
+    intros e HF. rewrite disambiguate_op_stages.
+    assert (He : In e cs /\ cand_fits (UCall a t) e = true).
+    { assert (In e (filter (cand_fits (UCall a t)) cs)) by (rewrite HF; left; reflexivity).
+      apply filter_In in H. exact H. }
+    destruct He as [Hin Hfit]. pose proof Hfit as Hfit'. rewrite (op_fits_12 e Hin) in Hfit'.
+    apply andb_true_iff in Hfit'. destruct Hfit' as [P1 P2].
+    assert (C2 : op2 t (op1 a cs) = [e]).
+    { unfold op1. destruct (longer_than_one cs) eqn:L0.
+      - assert (I1 : In e (filter (actual_ok implicit_possible a) cs)) by (apply filter_In; tauto).
+        unfold op2. destruct (longer_than_one (filter (actual_ok implicit_possible a) cs)) eqn:L1.
+        + rewrite op12_filter. exact HF.
+        + destruct (lt1_false _ L1) as [E|[x E]]; rewrite E in *; [destruct I1|].
+          destruct I1 as [->|[]]. reflexivity.
+      - destruct (lt1_false _ L0) as [E|[x E]]; rewrite E in *; [destruct Hin|].
+        destruct Hin as [->|[]]. reflexivity. }
+    rewrite C2. reflexivity.
+  Qed.
+
+  Lemma op_several_fit : forall x y r, NoDup (map profile cs) ->
+    filter (cand_fits (UCall a t)) cs = x :: y :: r -> disambiguate_op cs a (Some t) = Failed.
+  Proof.
+    intros x y r Hnd HF. pose proof (two_fits_universal cs a t x y r Hnd HF) as Ha.
+    rewrite disambiguate_op_stages.
+    assert (L0 : longer_than_one cs = true).
+    { apply lt1_length. pose proof (filter_length_le' (cand_fits (UCall a t)) cs) as H. rewrite HF in H. cbn [length] in H. lia. }
+    assert (L1 : longer_than_one (filter (actual_ok implicit_possible a) cs) = true).
+    { apply lt1_length. pose proof (filter_length_le' (return_ok (Some t)) (filter (actual_ok implicit_possible a) cs)) as H.
+      rewrite op12_filter, HF in H. cbn [length] in H. lia. }
+    unfold op1. rewrite L0. unfold op2 at 2. rewrite L1. rewrite op12_filter, HF.
+    assert (Hall : forall e, In e (x :: y :: r) -> cand_fits (UCall a t) e = true).
+    { intros e He. rewrite <- HF in He. apply filter_In in He. tauto. }
+    assert (Hsame : all_same_return (x :: y :: r) = true).
+    { assert (forall e, In e (x :: y :: r) -> return_type e = Some t).
+      { intros e He. specialize (Hall e He). unfold cand_fits in Hall. unfold return_type.
+        destruct (ekind e); try discriminate. apply andb_true_iff in Hall. destruct Hall as [_ Hr].
+        apply ty_eqb_eq in Hr. subst. reflexivity. }
+      cbn [all_same_return]. apply forallb_forall. intros e He. apply oty_eqb_eq.
+      rewrite (H e (or_intror He)), (H x (or_introl eq_refl)). reflexivity. }
+    unfold op3. cbn [longer_than_one]. rewrite Hsame. cbn [andb]. subst a.
+    rewrite (strict_universal_none (x :: y :: r) t Hall). unfold op2. cbn [longer_than_one]. unfold op5.
+    assert (Hs : filter (actual_ok strict_possible AUniv) cs = []).
+    { clear - Hcs. induction cs as [|e l IH]; [reflexivity|]. cbn [filter].
+      destruct (Hcs e (or_introl eq_refl)) as [Ha _]. unfold actual_ok. unfold accepts_one_actual in Ha.
+      destruct (formal e); [|discriminate]. cbn [strict_possible]. apply IH. intros z Hz. apply Hcs. right. exact Hz. }
+    rewrite Hs. reflexivity.
+  Qed.
+
+  Lemma op_result_in : forall x, disambiguate_op cs a (Some t) = Unambiguous x -> In x cs.
+  Proof.
+    intros x. rewrite disambiguate_op_stages.
+    assert (S1 : forall z, In z (op1 a cs) -> In z cs).
+    { intros z. unfold op1. destruct (longer_than_one cs); [rewrite filter_In; tauto|auto]. }
+    assert (S2 : forall l z, In z (op2 t l) -> In z l).
+    { intros l z. unfold op2. destruct (longer_than_one l); [rewrite filter_In; tauto|auto]. }
+    assert (S3 : forall l z, In z (op3 a l) -> In z l).
+    { intros l z. unfold op3. destruct (longer_than_one l && all_same_return l); [rewrite filter_In; tauto|auto]. }
+    assert (S5 : forall l z, (forall w, In w l -> In w cs) -> In z (op5 a cs l) -> In z cs).
+    { intros l z Hl. unfold op5. destruct l as [|w l'].
+      - destruct (filter (actual_ok strict_possible a) cs) as [|e [|e' r']] eqn:E.
+        + intros [].
+        + intros [<-|[]]. assert (In e (filter (actual_ok strict_possible a) cs)) by (rewrite E; left; reflexivity).
+          apply filter_In in H. tauto.
+        + intros [].
+      - apply Hl. }
+    set (c5 := op5 a cs (op2 t (op3 a (op2 t (op1 a cs))))).
+    assert (H5 : forall z, In z c5 -> In z cs).
+    { intros z. apply S5. intros w Hw. apply S1. apply S2. apply S3. apply S2. exact Hw. }
+    destruct c5 as [|e [|e' r']]; try discriminate. intros H. inversion H; subst. apply H5. left. reflexivity.
+  Qed.
+End OpStages.
+
+(* ---- what a use site observes refines `resolve` ------------------------------------------- *)
+Definition agrees (m : mres) (a : answer) : Prop :=
+  match a with
+  | ADecl i => m = mkMres (Some i) MOk
+  | AConflict => mclass_of m = MConflict
+  | AUndeclared => mclass_of m = MUndeclared
+  | AError => mclass_of m = MError
+  end.
+
+Inductive look_equiv : looked -> dres -> Prop :=
+| le_single : forall e, look_equiv (LkSingle e) (DSingle e)
+| le_over : forall m es, Permutation m es -> look_equiv (LkOver m) (DOver es)
+| le_conflict : look_equiv LkConflict DConflict
+| le_undeclared : look_equiv LkUndeclared DUndeclared.
+
+Lemma perm_filter : forall {A} (f : A -> bool) l l', Permutation l l' -> Permutation (filter f l) (filter f l').
+Proof.
+  intros A f l l' H. induction H; cbn [filter].
+  - constructor.
+  - destruct (f x); [constructor|]; assumption.
+  - destruct (f x), (f y); try apply Permutation_refl. apply perm_swap.
+  - eapply Permutation_trans; eauto.
+Qed.
+
+Lemma perm_forallb : forall {A} (f : A -> bool) l l', Permutation l l' -> forallb f l' = true -> forallb f l = true.
+Proof.
+  intros A f l l' H Hf. apply forallb_forall. intros x Hx. rewrite forallb_forall in Hf. apply Hf.
+  eapply Permutation_in; eauto.
+Qed.
+
+Lemma no_actuals_filter : forall t es, forallb overloadable es = true ->
+  filter (fun e => callable_without_actuals e && is_function e && return_ok (Some t) e) es
+  = filter (cand_fits (UVal t)) es.
+Proof.
+  intros t es Ho. apply filter_ext_in'. intros [i d k b] Hx. pose proof (forallb_In _ _ _ Ho Hx) as H.
+  unfold overloadable in H. cbn [ekind] in H.
+  unfold callable_without_actuals, is_function, return_ok, formal, return_type, cand_fits. cbn [ekind].
+  destruct k; try discriminate; cbn [andb]; [reflexivity|]. apply eq_true_iff_eq. rewrite !ty_eqb_eq. split; congruence.
+Qed.
+
+Lemma typemark_filter : forall es, forallb overloadable es = true -> filter (cand_fits UType) es = [].
+Proof.
+  intros es Ho. induction es as [|e r IH]; [reflexivity|]. cbn [forallb] in Ho. apply andb_true_iff in Ho.
+  destruct Ho as [He Hr]. cbn [filter]. unfold overloadable in He. unfold cand_fits.
+  destruct (ekind e); try discriminate; apply IH; exact Hr.
+Qed.
+
+Inductive shape {A} : list A -> Type :=
+| sh_nil : shape []
+| sh_one : forall e, shape [e]
+| sh_more : forall x y r, shape (x :: y :: r).
+Definition shape_of {A} (l : list A) : shape l :=
+  match l with [] => sh_nil | [e] => sh_one e | x :: y :: r => sh_more x y r end.
+
+Definition in_fragment (d : des) (u : usage) (r : dres) : Prop :=
+  match r with
+  | DSingle e => is_operator d = false /\ overloadable e = false /\
+                 match u, ekind e with UCall _ _, KType _ _ => False | _, _ => True end
+  | DOver es => forallb overloadable es = true /\ NoDup (map profile es)
+  | _ => True
+  end.
+
+Theorem site_result_refines_resolve : forall d u r r',
+  look_equiv r r' -> in_fragment d u r' -> agrees (site_result d u r) (resolve r' u).
+Proof.
+  intros d u r r' H Hfr. destruct H as [e|m es Hp| |]; cbn [site_result resolve]; try reflexivity.
+  - (* a single non-overloadable declaration *)
+    destruct Hfr as [Hop [Hno Hty]]. rewrite Hop.
+    assert (Hs : single_ok u e = cand_fits u e).
+    { unfold single_ok, cand_fits. unfold overloadable in Hno.
+      destruct u, (ekind e); try contradiction; try discriminate; try reflexivity.
+      apply eq_true_iff_eq. rewrite !ty_eqb_eq. split; congruence. }
+    rewrite Hs. destruct (cand_fits u e); reflexivity.
+  - (* overloaded *)
+    destruct Hfr as [Ho Hnd].
+    assert (Hom : forallb overloadable m = true) by (eapply perm_forallb; eauto).
+    assert (Hndm : NoDup (map profile m)).
+    { eapply Permutation_NoDup; [|exact Hnd]. apply Permutation_map. apply Permutation_sym. exact Hp. }
+    pose proof (perm_filter (cand_fits u) m es Hp) as HpF.
+    destruct u as [t|a t|].
+    + (* value *)
+      unfold disambiguate_no_actuals. rewrite (no_actuals_filter t m Hom).
+      destruct (shape_of (filter (cand_fits (UVal t)) es)) as [|e|x y r0].
+      * apply Permutation_sym in HpF; apply Permutation_nil in HpF. rewrite HpF. reflexivity.
+      * apply Permutation_sym in HpF; apply Permutation_length_1_inv in HpF. rewrite HpF. reflexivity.
+      * pose proof (Permutation_length HpF) as HL. cbn [length] in HL.
+        destruct (filter (cand_fits (UVal t)) m) as [|x' [|y' r']]; cbn [length] in HL; try lia. reflexivity.
+    + (* call *)
+      destruct (shape_of (filter (cand_fits (UCall a t)) es)) as [|e|x y r0].
+      * (* nothing fits: whatever is selected does not type-check *)
+        apply Permutation_sym in HpF; apply Permutation_nil in HpF.
+        assert (Hnone : forall z, In z m -> cand_fits (UCall a t) z = false).
+        { intros z Hz. destruct (cand_fits (UCall a t) z) eqn:E; [|reflexivity].
+          assert (In z (filter (cand_fits (UCall a t)) m)) by (apply filter_In; tauto). rewrite HpF in H. destruct H. }
+        destruct (is_operator d).
+        -- destruct (operator_candidates m) as [|c0 cs0] eqn:Ec; [reflexivity|].
+           destruct (disambiguate_op (c0 :: cs0) a (Some t)) as [z| |] eqn:Ed; try reflexivity.
+           assert (Hcs : forall e, In e (c0 :: cs0) -> accepts_one_actual e = true /\ is_function e = true).
+           { intros e He. rewrite <- Ec in He. unfold operator_candidates in He. apply filter_In in He.
+             destruct He as [_ He]. apply andb_true_iff in He. exact He. }
+           pose proof (op_result_in a t (c0 :: cs0) z Ed) as Hz.
+           assert (Hzm : In z m). { rewrite <- Ec in Hz. unfold operator_candidates in Hz. apply filter_In in Hz. tauto. }
+           cbn [mclass_of]. rewrite <- (op_fits_12 a t (c0 :: cs0) Hcs z Hz). rewrite (Hnone z Hzm). reflexivity.
+        -- destruct (disambiguate m a (Some t)) as [z| |] eqn:Ed; try reflexivity.
+           pose proof (disambiguate_in m a t z Ed) as Hz. cbn [mclass_of].
+           pose proof (fits_call_stages a t z (forallb_In _ _ _ Hom Hz)) as Hst.
+           rewrite (Hnone z Hz) in Hst.
+           assert (is_function z = true).
+           { pose proof (forallb_In _ _ _ Hom Hz) as Hoz. unfold overloadable in Hoz. unfold is_function, return_type.
+             destruct (ekind z); try discriminate; reflexivity. }
+           rewrite H in Hst. cbn [andb] in Hst. rewrite <- Hst. reflexivity.
+      * (* exactly one fits *)
+        apply Permutation_sym in HpF; apply Permutation_length_1_inv in HpF.
+        assert (Hfit : cand_fits (UCall a t) e = true /\ In e m).
+        { assert (In e (filter (cand_fits (UCall a t)) m)) by (rewrite HpF; left; reflexivity).
+          apply filter_In in H. tauto. }
+        destruct Hfit as [Hfit Hem].
+        destruct (is_operator d).
+        -- pose proof (opcand_filter a t m) as Hcf. rewrite HpF in Hcf.
+           destruct (operator_candidates m) as [|c0 cs0] eqn:Ec; [discriminate|].
+           assert (Hcs : forall z, In z (c0 :: cs0) -> accepts_one_actual z = true /\ is_function z = true).
+           { intros z He. rewrite <- Ec in He. unfold operator_candidates in He. apply filter_In in He.
+             destruct He as [_ He]. apply andb_true_iff in He. exact He. }
+           rewrite (op_unique_fit a t (c0 :: cs0) Hcs e Hcf).
+           assert (Hec : In e (c0 :: cs0)).
+           { assert (In e (filter (cand_fits (UCall a t)) (c0 :: cs0))) by (rewrite Hcf; left; reflexivity).
+             apply filter_In in H. tauto. }
+           rewrite <- (op_fits_12 a t (c0 :: cs0) Hcs e Hec), Hfit. reflexivity.
+        -- rewrite (disambiguate_unique_fit m a t e Hom HpF).
+           pose proof (fits_call_stages a t e (forallb_In _ _ _ Hom Hem)) as Hst. rewrite Hfit in Hst.
+           symmetry in Hst. apply andb_true_iff in Hst. destruct Hst as [Hst H4].
+           apply andb_true_iff in Hst. destruct Hst as [Hst H3]. apply andb_true_iff in Hst. destruct Hst as [H1 H2].
+           rewrite H2, H3, H4. reflexivity.
+      * (* several fit: ambiguous *)
+        pose proof (Permutation_length HpF) as HL. cbn [length] in HL.
+        destruct (filter (cand_fits (UCall a t)) m) as [|x' [|y' r']] eqn:EF; cbn [length] in HL; try lia.
+        destruct (is_operator d).
+        -- pose proof (opcand_filter a t m) as Hcf. rewrite EF in Hcf.
+           destruct (operator_candidates m) as [|c0 cs0] eqn:Ec; [reflexivity|].
+           assert (Hcs : forall z, In z (c0 :: cs0) -> accepts_one_actual z = true /\ is_function z = true).
+           { intros z He. rewrite <- Ec in He. unfold operator_candidates in He. apply filter_In in He.
+             destruct He as [_ He]. apply andb_true_iff in He. exact He. }
+           assert (Hndc : NoDup (map profile (c0 :: cs0))).
+           { rewrite <- Ec. unfold operator_candidates. apply NoDup_map_filter. exact Hndm. }
+           rewrite (op_several_fit a t (c0 :: cs0) Hcs x' y' r' Hndc Hcf). reflexivity.
+        -- rewrite (disambiguate_several_fit m a t x' y' r' Hom Hndm EF). reflexivity.
+    + (* type mark *)
+      rewrite (typemark_filter es Ho). reflexivity.
+Qed.
+
+(* ------------------------------------------------------------------------------------------ *)
+(* Part 2: lookup_uncached on the scope chain of a program point refines Scope.denotes         *)
+(* ------------------------------------------------------------------------------------------ *)
+Definition add_opt (o : option nament) (e : ent) : option nament :=
+  Some (match o with None => named_new e | Some n => add_to n e end).
+
+Lemma ents_get_add : forall m e d,
+  ents_get (ents_add m e) d = if edes e =? d then add_opt (ents_get m d) e else ents_get m d.
+Proof.
+  intros m e d. destruct (N.eqb_spec (edes e) d) as [Hd|Hd].
+  - subst d. induction m as [|[k n] r IH]; cbn [ents_add ents_get].
+    + rewrite N.eqb_refl. reflexivity.
+    + destruct (N.eqb_spec k (edes e)) as [Hk|Hk]; cbn [ents_get].
+      * rewrite Hk, N.eqb_refl. reflexivity.
+      * destruct (N.eqb_spec k (edes e)); [contradiction|]. exact IH.
+  - apply ents_get_add_other. congruence.
+Qed.
+
+Lemma ents_get_fold_add : forall l m d,
+  ents_get (fold_left ents_add l m) d = fold_left add_opt (named d l) (ents_get m d).
+Proof.
+  induction l as [|e r IH]; intros m d; [reflexivity|]. cbn [fold_left]. rewrite IH, ents_get_add.
+  unfold named. cbn [filter]. destruct (edes e =? d); reflexivity.
+Qed.
+
+Lemma skey_profile : forall e, overloadable e = true -> subprogram_key e = profile e.
+Proof.
+  intros [i d k b]. unfold overloadable, subprogram_key, profile, formal, return_type. cbn [ekind].
+  destruct k; try discriminate; reflexivity.
+Qed.
+
+Lemma key_of_is_profile : forall e x, overloadable e = true -> overloadable x = true ->
+  key_of_is e x = same_profile e x.
+Proof.
+  intros e x He Hx. unfold key_of_is, skey_eqb. rewrite (skey_profile e He), (skey_profile x Hx).
+  unfold same_profile. apply eq_true_iff_eq. rewrite !andb_true_iff, !oty_eqb_eq. split; intros [A B]; split; congruence.
+Qed.
+
+Lemma same_profile_sym : forall a b, same_profile a b = same_profile b a.
+Proof. intros a b. apply eq_true_iff_eq. rewrite !same_profile_eq. split; congruence. Qed.
+
+Lemma omap_get_none : forall m e, forallb overloadable m = true -> overloadable e = true ->
+  not_hidden_by m e = true -> omap_get m e = None.
+Proof.
+  intros m e Hm He Hn. unfold omap_get. induction m as [|x r IH]; [reflexivity|].
+  cbn [forallb] in Hm. apply andb_true_iff in Hm. destruct Hm as [Hx Hr].
+  unfold not_hidden_by in Hn. cbn [existsb] in Hn. rewrite negb_orb in Hn. apply andb_true_iff in Hn.
+  destruct Hn as [H1 H2]. cbn [find]. rewrite (key_of_is_profile e x He Hx).
+  apply negb_true_iff in H1. rewrite H1. apply IH; assumption.
+Qed.
+
+(* the entities a region holds for d after the declarations l (no duplicate declarations) *)
+Definition classify (l : list ent) : option nament :=
+  match l with
+  | [] => None
+  | [e] => Some (named_new e)
+  | _ => Some (NOver l)
+  end.
+
+Lemma fold_add_over : forall rest acc,
+  forallb overloadable (acc ++ rest) = true -> distinct_profiles (acc ++ rest) = true -> acc <> [] ->
+  fold_left add_opt rest (Some (NOver acc)) = Some (NOver (acc ++ rest)).
+Proof.
+  induction rest as [|e r IH]; intros acc Ho Hd Hne; [rewrite app_nil_r; reflexivity|].
+  cbn [fold_left]. unfold add_opt at 2. cbn [add_to].
+  assert (Hoe : overloadable e = true).
+  { apply (forallb_In _ _ e Ho). apply in_or_app. right. left. reflexivity. }
+  assert (Hoa : forallb overloadable acc = true).
+  { apply forallb_forall. intros x Hx. apply (forallb_In _ _ x Ho). apply in_or_app. left. exact Hx. }
+  unfold is_overloaded. unfold overloadable in Hoe. rewrite Hoe. fold (overloadable e) in Hoe.
+  assert (Hnh : not_hidden_by acc e = true).
+  { apply distinct_profiles_NoDup in Hd. rewrite map_app in Hd. cbn [map] in Hd.
+    apply NoDup_remove_2 in Hd. unfold not_hidden_by. apply negb_true_iff.
+    destruct (existsb (same_profile e) acc) eqn:E; [|reflexivity]. exfalso. apply Hd.
+    apply existsb_exists in E. destruct E as [x [Hx Hs]]. apply in_or_app. left.
+    apply in_map_iff. exists x. split; [|exact Hx]. symmetry. apply same_profile_eq. exact Hs. }
+  unfold over_insert. rewrite (omap_get_none acc e Hoa Hoe Hnh).
+  replace (acc ++ e :: r) with ((acc ++ [e]) ++ r) by (rewrite <- app_assoc; reflexivity).
+  apply IH.
+  - rewrite <- app_assoc. exact Ho.
+  - rewrite <- app_assoc. exact Hd.
+  - destruct acc; discriminate.
+Qed.
+
+Lemma fold_add_classify : forall l, homographs_ok l = true -> fold_left add_opt l None = classify l.
+Proof.
+  intros [|e [|e' r]] H; [reflexivity|reflexivity|].
+  cbn [homographs_ok] in H. apply andb_true_iff in H. destruct H as [Ho Hd].
+  assert (He : overloadable e = true) by (apply (forallb_In _ _ e Ho); left; reflexivity).
+  assert (H1 : add_opt None e = Some (NOver [e])).
+  { unfold add_opt, named_new, is_overloaded. unfold overloadable in He. rewrite He. reflexivity. }
+  change (fold_left add_opt (e :: e' :: r) None) with (fold_left add_opt (e' :: r) (add_opt None e)).
+  rewrite H1. cbn [classify].
+  apply (fold_add_over (e' :: r) [e]); [exact Ho|exact Hd|discriminate].
+Qed.
+
+Section Point.
+  Variable pkgs : N -> list ent.
+
+  Lemma point_region_ents : forall pre r0,
+    r_ents (fold_left (item_apply pkgs) pre r0) = fold_left ents_add (decls_of pre) (r_ents r0).
+  Proof.
+    induction pre as [|it pre IH]; intros r0; [reflexivity|]. cbn [fold_left]. rewrite IH.
+    unfold decls_of. cbn [flat_map]. rewrite fold_left_app. destruct it; cbn [item_apply item_decls r_ents fold_left]; reflexivity.
+  Qed.
+
+  Lemma point_immediate : forall pre c d, homographs_ok (named d (decls_of pre)) = true ->
+    lookup_immediate (mkFrame (point_region pkgs pre) c) d = classify (named d (decls_of pre)).
+  Proof.
+    intros pre c d H. unfold lookup_immediate, point_region. cbn [f_region].
+    rewrite point_region_ents, ents_get_fold_add. cbn [region_empty r_ents ents_get].
+    apply fold_add_classify. exact H.
+  Qed.
+
+  Lemma pkg_region_get : forall p d, homographs_ok (named d (pkgs p)) = true ->
+    named_ents (ents_get (pkg_region pkgs p) d) = named d (pkgs p).
+  Proof.
+    intros p d H. unfold pkg_region. rewrite ents_get_fold_add. cbn [ents_get].
+    rewrite (fold_add_classify _ H). destruct (named d (pkgs p)) as [|e [|e' r]]; cbn [classify named_ents]; try reflexivity.
+    unfold named_new. destruct (is_overloaded e); reflexivity.
+  Qed.
+End Point.
+
+(* ---- directly visible declarations --------------------------------------------------------- *)
+Definition oplus (a b : list ent) : list ent := a ++ filter (not_hidden_by a) b.
+
+Lemma omap_has_hidden : forall m e, forallb overloadable m = true -> overloadable e = true ->
+  omap_has m e = negb (not_hidden_by m e).
+Proof.
+  intros m e Hm He. unfold omap_has, not_hidden_by. rewrite negb_involutive.
+  induction m as [|x r IH]; [reflexivity|]. cbn [forallb] in Hm. apply andb_true_iff in Hm. destruct Hm as [Hx Hr].
+  cbn [existsb]. rewrite (key_of_is_profile e x He Hx), (IH Hr). reflexivity.
+Qed.
+
+Lemma not_hidden_app : forall a b e, not_hidden_by (a ++ b) e = not_hidden_by a e && not_hidden_by b e.
+Proof. intros a b e. unfold not_hidden_by. rewrite existsb_app, negb_orb. reflexivity. Qed.
+
+Lemma with_visible_oplus : forall enc imm,
+  forallb overloadable imm = true -> forallb overloadable enc = true -> NoDup (map profile enc) ->
+  with_visible imm enc = oplus imm enc.
+Proof.
+  unfold with_visible, oplus. induction enc as [|e r IH]; intros imm Hi He Hnd; [cbn; rewrite app_nil_r; reflexivity|].
+  cbn [forallb] in He. apply andb_true_iff in He. destruct He as [Hoe Hor].
+  cbn [map] in Hnd. inversion Hnd as [|? ? Hn Hd]; subst.
+  cbn [fold_left filter]. rewrite (omap_has_hidden imm e Hi Hoe).
+  destruct (not_hidden_by imm e) eqn:Enh; cbn [negb].
+  - rewrite IH; [|rewrite forallb_app; cbn [forallb]; rewrite Hi, Hoe; reflexivity|exact Hor|exact Hd].
+    rewrite <- app_assoc. cbn [app]. f_equal. f_equal. apply filter_ext_in'. intros x Hx.
+    rewrite not_hidden_app. unfold not_hidden_by at 2. cbn [existsb]. rewrite orb_false_r.
+    destruct (same_profile x e) eqn:Es; [|rewrite andb_true_r; reflexivity].
+    exfalso. apply Hn. apply in_map_iff. exists x. split; [|exact Hx]. apply same_profile_eq. exact Es.
+  - apply IH; assumption.
+Qed.
+
+Lemma hidden_trans : forall a e x, same_profile e x = true -> not_hidden_by a x = false -> not_hidden_by a e = false.
+Proof.
+  intros a e x Hs Hx. unfold not_hidden_by in *. apply negb_false_iff in Hx. apply negb_false_iff.
+  apply existsb_exists in Hx. destruct Hx as [y [Hy Hxy]]. apply existsb_exists. exists y. split; [exact Hy|].
+  apply same_profile_eq. apply same_profile_eq in Hs, Hxy. congruence.
+Qed.
+
+Lemma oplus_assoc : forall a b c, oplus (oplus a b) c = oplus a (oplus b c).
+Proof.
+  intros a b c. unfold oplus. rewrite <- app_assoc. f_equal. rewrite filter_app. f_equal.
+  rewrite filter_filter. apply filter_ext_in'. intros e He.
+  rewrite not_hidden_app. destruct (not_hidden_by a e) eqn:Ea; cbn [andb]; [|rewrite andb_false_r; reflexivity].
+  rewrite andb_true_r.
+  (* e is not hidden by a: hidden by b iff hidden by the part of b that a does not hide *)
+  change (negb (existsb (same_profile e) (filter (not_hidden_by a) b)) = negb (existsb (same_profile e) b)).
+  f_equal. apply eq_true_iff_eq. rewrite !existsb_exists. split.
+  - intros [x [Hx Hs]]. apply filter_In in Hx. exists x. tauto.
+  - intros [x [Hx Hs]]. exists x. split; [|exact Hs]. apply filter_In. split; [exact Hx|].
+    destruct (not_hidden_by a x) eqn:Ex; [reflexivity|]. rewrite (hidden_trans a e x Hs Ex) in Ea. discriminate.
+Qed.
+
+Lemma oplus_nil_r : forall a, oplus a [] = a.
+Proof. intros a. unfold oplus. cbn [filter]. apply app_nil_r. Qed.
+Lemma oplus_nil_l : forall b, oplus [] b = b.
+Proof.
+  intros b. unfold oplus. cbn [app]. induction b as [|e r IH]; [reflexivity|]. cbn [filter]. unfold not_hidden_by at 1.
+  cbn [existsb negb]. f_equal. exact IH.
+Qed.
+
+Lemma oplus_overloadable : forall a b, forallb overloadable a = true -> forallb overloadable b = true ->
+  forallb overloadable (oplus a b) = true.
+Proof.
+  intros a b Ha Hb. unfold oplus. rewrite forallb_app, Ha. cbn [andb]. apply forallb_forall. intros x Hx.
+  apply filter_In in Hx. apply (forallb_In _ _ x Hb). tauto.
+Qed.
+
+Lemma NoDup_app_intro : forall {A} (l1 l2 : list A),
+  NoDup l1 -> NoDup l2 -> (forall x, In x l1 -> ~ In x l2) -> NoDup (l1 ++ l2).
+Proof.
+  intros A l1 l2 H1 H2 Hd. induction l1 as [|x r IH]; [exact H2|]. cbn [app].
+  inversion H1 as [|? ? Hn Hr]; subst. constructor.
+  - intros Hin. apply in_app_or in Hin. destruct Hin as [Hin|Hin]; [contradiction|].
+    apply (Hd x); [left; reflexivity|exact Hin].
+  - apply IH; [exact Hr|]. intros y Hy. apply Hd. right. exact Hy.
+Qed.
+
+Lemma oplus_NoDup : forall a b, NoDup (map profile a) -> NoDup (map profile b) -> NoDup (map profile (oplus a b)).
+Proof.
+  intros a b Ha Hb. unfold oplus. rewrite map_app. apply NoDup_app_intro.
+  - exact Ha.
+  - apply NoDup_map_filter. exact Hb.
+  - intros x Hx Hy. apply in_map_iff in Hx. destruct Hx as [z [Hz Hza]].
+    apply in_map_iff in Hy. destruct Hy as [y [Hy Hyb]]. apply filter_In in Hyb. destruct Hyb as [_ Hnh].
+    unfold not_hidden_by in Hnh. apply negb_true_iff in Hnh.
+    assert (existsb (same_profile y) a = true); [|congruence].
+    apply existsb_exists. exists z. split; [exact Hza|]. apply same_profile_eq. congruence.
+Qed.
